@@ -6,17 +6,18 @@ require (
 	github.com/aptpod/iscp-go v0.0.0
 	github.com/google/uuid v1.3.0
 	github.com/gorilla/websocket v1.4.2
+	nhooyr.io/websocket v1.8.10
 )
 
 require golang.org/x/mod v0.23.0 // indirect
 
 require (
 	github.com/aptpod/iscp-proto v0.0.0-20230808235245-fada26057efa
-	github.com/coder/websocket v1.8.12 // indirect
+	github.com/coder/websocket v1.8.12
 	github.com/gogo/protobuf v1.3.2
 	github.com/quic-go/qpack v0.5.1 // indirect
 	github.com/quic-go/quic-go v0.50.0
-	github.com/quic-go/webtransport-go v0.8.1-0.20241018022711-4ac2c9250e66 // indirect
+	github.com/quic-go/webtransport-go v0.8.1-0.20241018022711-4ac2c9250e66
 	golang.org/x/crypto v0.35.0 // indirect
 	golang.org/x/exp v0.0.0-20250218142911-aa4b98e5adaa // indirect
 	golang.org/x/net v0.35.0 // indirect
